@@ -811,11 +811,19 @@ func checkOwnership(c *Ctx) {
 			grow(objs)
 			grow(errs)
 			// the non-error continuation
+			// (the first test after the call: when the error variable is tested again further on — `if err == nil {
+			// keep }` … `if err != nil { return }` — the later test is on the way from the first one)
 			var cont *ssa.BasicBlock
+			dist := blockDistances(call.Block())
+			best := -1
 			for e := range errs {
 				for _, nt := range nilTests(e) {
-					if blockReaches(call.Block(), nt.iff.Block()) {
-						cont = nt.isNil
+					d, ok := dist[nt.iff.Block()]
+					if !ok {
+						continue
+					}
+					if best < 0 || d < best || (d == best && nt.iff.Block().Index < cont.Index) {
+						cont, best = nt.isNil, d
 					}
 				}
 			}
@@ -1153,4 +1161,21 @@ func caseNameOf(fn *ssa.Function, in ssa.Instruction) string {
 		}
 	}
 	return best
+}
+
+// blockDistances: the length of the shortest path from b to every block it reaches (b itself: 0).
+func blockDistances(b *ssa.BasicBlock) map[*ssa.BasicBlock]int {
+	d := map[*ssa.BasicBlock]int{b: 0}
+	q := []*ssa.BasicBlock{b}
+	for len(q) > 0 {
+		x := q[0]
+		q = q[1:]
+		for _, s := range x.Succs {
+			if _, ok := d[s]; !ok {
+				d[s] = d[x] + 1
+				q = append(q, s)
+			}
+		}
+	}
+	return d
 }
